@@ -205,12 +205,18 @@ def _register_o1_rows():
                 px.run_px(h, c.name, make_assembly_harness(c, goals, rows=rows, per_entry=True), cap=120, order=('lra2', 'core'), expect_goals=goals)
             ob.__doc__ = ('two triangles / 4 nodes / 2 fields (8 dofs): entry (u,v) of assemble_sparse_stiffness_matrix(kValues, conns, dofManager) equals the sum over (e,i,j) with '
                           'unknown(e,i)=u, unknown(e,j)=v of kValues[e,i,j] for symmetric element blocks — all masks, all block values')
-            obligation(P, 'O1.assembly[%s rows %d,%d]' % (name, rows[0], rows[1]), tiers=tiers, cap=900)(ob)
+            obligation(P, 'O1.assembly[%s rows %d+%d]' % (name, rows[0], rows[1]), tiers=tiers, cap=900)(ob)
 
 
 _register_o1_rows()
 
 
+DESIGNED_NOT_REGISTERED.append(
+    ('O2-O4 with volume-averaged pressure projection (element stiffness symmetric with modify_element_gradient = volume_average_J_gradient_transformation composed with '
+     'the plane-strain map, P1 triangle, 3-point rule, degree-0 pressure, Green-Lagrange material)',
+     'the factories do not execute with a pressure-projection degree on the unchanged tree (O5); run on volume_average_J_gradient_transformation directly (DESIGN C02) the '
+     'symmetry query is unknown at 120 s both as a free identity and with the side conditions (sqrt(JBar/J) and the derivative of the projection solve are relational '
+     'encodings, so the goal is not a polynomial identity of the expressions)'))
 DESIGNED_NOT_REGISTERED.append(
     ('O1 goal "assembled_entry_is_the_block_sum_transposed_for_arbitrary_blocks" (what the unchanged tree computes for unsymmetric blocks; discharges on the unchanged tree, '
      'tri1_f2 5 s, tri2_f2 2 s per entry)', 'a description of the present behaviour, not a property: it turns into a violation as soon as the row/column orientation is '
@@ -501,7 +507,33 @@ def prove_atoms(c, name, spec, cap=60, order=('core', 'nlsat'), side=True, extra
                 catoms = [catoms]
             ok = all(bool(x) for x in flat(list(ca))) if side else True
             return ok, catoms[i], dict(outputs=[onp.asarray(l).tolist() for l in jax.tree_util.tree_leaves(co)][:4])
-        recs.append(c.h.prove('%s.%s' % (name, atom.name) if atom.name else name, base, atom, inputs=c.inp, concrete=concrete, cap=cap, order=order))
+        qname = '%s.%s' % (name, atom.name) if atom.name else name
+        rec = c.h.prove(qname, base, atom, inputs=c.inp, concrete=concrete, cap=cap, order=order)
+        if not side and rec is not None and rec.get('status') != 'discharged':
+            # not an identity of the expressions: decide the goal under the complete encoding (box, linear-solve relations, reciprocal
+            # definitions), whose models are points of the real function and can be replayed
+            full = list(assumes) + c.side(True) + list(extra)
+
+            def concrete_full(vals, i=i):
+                ok, at, info = concrete(vals)
+                ca, _ = spec(c.conc_inputs(vals), c.real(vals))
+                return all(bool(x) for x in flat(list(ca))), at, info
+            if c.h.records and c.h.records[-1] is rec:
+                c.h.records.pop()
+            # counterexample search: first with geometry / moduli / step pinned to the example values (a low-dimensional polynomial
+            # problem; any model found is a model of the unpinned query as well), then unpinned
+            pins = []
+            for k, e in zip(c.names, c.example):
+                if k in ('X', 'E', 'nu', 'rho', 'beta', 'dt'):
+                    pins += [sym.toz(x) == sym.rat(float(v)) for x, v in zip(flat(c.inp[k]), onp.asarray(e, dtype=float).reshape(-1))]
+            st = sym.solve(full + pins + [atom.neg(1e-5)], min(cap, 40), order=('nlsat', 'core'))[0] if pins else 'unknown'
+            note = 'free identity not established (%s); decided with the side conditions of the encoding' % rec.get('status')
+            if st == 'sat':
+                rec = c.h.prove(qname, full + pins, atom, inputs=c.inp, concrete=concrete_full, cap=cap, order=('nlsat', 'core'),
+                                note=note + '; counterexample search with geometry and moduli pinned to the example values')
+            else:
+                rec = c.h.prove(qname, full, atom, inputs=c.inp, concrete=concrete_full, cap=cap, order=('nlsat', 'core'), note=note)
+        recs.append(rec)
     return recs
 
 
@@ -533,6 +565,11 @@ def _sym_spec(i, o):
     return _box(i), Eq([o[a, k, b, l] for a, k, b, l in SYM_PAIRS], [o[b, l, a, k] for a, k, b, l in SYM_PAIRS], name='K_abij_eq_K_baji')
 
 
+def _sym_spec_split(i, o):
+    """one atom per pair of entries (the monolithic query needs ~100 s for neo-Hookean / axisymmetric, a single pair 2-8 s)"""
+    return _box(i), [Eq(o[a, k, b, l], o[b, l, a, k], name='K_%d%d%d%d_eq_K_%d%d%d%d' % (a, k, b, l, b, l, a, k)) for a, k, b, l in SYM_PAIRS]
+
+
 STIFF_QUICK = [('linear', 'plane strain', 2), ('linear', 'axisymmetric', 2), ('green_lagrange', 'plane strain', 2), ('green_lagrange', 'axisymmetric', 2),
                ('neohookean', 'plane strain', 1), ('neohookean', 'axisymmetric', 1), ('neohookean_coupled', 'plane strain', 2), ('synthetic', 'plane strain', 2)]
 STIFF_THOROUGH = [('neohookean', 'plane strain', 2), ('neohookean', 'axisymmetric', 2), ('neohookean_coupled', 'axisymmetric', 2), ('synthetic', 'axisymmetric', 2),
@@ -557,7 +594,8 @@ def _register_o2_symmetry():
             h.bounds('O2: one P1 triangle, nodal coordinates X (3x2), E, nu, nodal displacements U (3x2), internal state: ALL reals (the identity is proved without '
                      'any hypothesis, in particular for every triangle and every modulus); material %s, mode %s, %d-point rule' % (kind, mode, len(Setup(1, qdeg).qr)))
             c = stiffness_case(h, kind, mode, qdeg)
-            prove_atoms(c, 'symmetry', _sym_spec, cap=150, order=('core', 'nlsat'), side=False)
+            split = kind.startswith('neohookean') and mode == 'axisymmetric'
+            prove_atoms(c, 'symmetry', _sym_spec_split if split else _sym_spec, cap=150, order=('core', 'nlsat'), side=False)
         ob.__doc__ = 'element stiffness K[a,i,b,j] = K[b,j,a,i] exactly: jaxpr of MechanicsFunctions.compute_element_stiffnesses on one symbolic-coordinate triangle'
         obligation(P, 'O2.element_stiffness_symmetric[%s/%s/q%d]' % (kind, mode.replace(' ', '_'), qdeg), tiers=tiers, cap=600)(ob)
 
